@@ -70,6 +70,9 @@ func iniScopeCmd(d *Decl, c *Cmd, chain []*Cmd, name string) ([]*OptInfo, bool) 
 // name, namespaced long name, short name - in that order of preference; among
 // equals the first declared.
 func iniResolve(scope []*OptInfo, key string) *OptInfo {
+	if key == "" {
+		return nil
+	}
 	for prio := 0; prio < 4; prio++ {
 		for _, o := range scope {
 			switch prio {
@@ -78,7 +81,7 @@ func iniResolve(scope []*OptInfo, key string) *OptInfo {
 					return o
 				}
 			case 1:
-				if o.Field == key {
+				if o.Field != "" && o.Field == key {
 					return o
 				}
 			case 2:
@@ -298,4 +301,17 @@ func iniValueFor(o *OptInfo, v string, forceQuote bool) string {
 		return k + ":" + strconv.Quote(val)
 	}
 	return iniRawValue(v, forceQuote)
+}
+
+// iniKeyOf is the key under which an entry for o is normally written: its field
+// name or, for an option added with AddOption (it has none), its namespaced
+// long name or its short name.
+func iniKeyOf(o *OptInfo) string {
+	switch {
+	case o.Field != "":
+		return o.Field
+	case o.NsLong != "":
+		return o.NsLong
+	}
+	return o.Short
 }
